@@ -5,7 +5,9 @@ import (
 	"encoding/hex"
 	"encoding/json"
 	"fmt"
+	"github.com/cosmos/cosmos-sdk/baseapp"
 	"math/rand"
+	"os"
 	"runtime/debug"
 	"sort"
 	"strings"
@@ -67,9 +69,9 @@ type GenCfg struct {
 	H0         int64 // initial height
 	T0         time.Time
 	NAcc       int
-	NVal       int   // first NVal accounts are validator operators (bonded at genesis)
-	NCert      int   // accounts NVal .. NVal+NCert-1 are certifiers
-	AdminIdx   int   // shield admin
+	NVal       int // first NVal accounts are validator operators (bonded at genesis)
+	NCert      int // accounts NVal .. NVal+NCert-1 are certifiers
+	AdminIdx   int // shield admin
 	ExtraDenom []string
 	Balance    int64 // bond-denom balance per account
 	ValStake   []int64
@@ -137,7 +139,11 @@ func consensusParams() *abci.ConsensusParams {
 }
 
 func newApp(db dbm.DB, enc appparams.EncodingConfig) *app.CertiKApp {
-	return app.NewCertiKApp(log.NewNopLogger(), db, nil, true, map[int64]bool{}, app.DefaultNodeHome, 0, enc, sdksimapp.EmptyAppOptions{})
+	var opts []func(*baseapp.BaseApp)
+	if os.Getenv("VERIF_TRACE") != "" { // debugging aid: panics inside a transaction are reported with their message and stack
+		opts = append(opts, baseapp.SetTrace(true))
+	}
+	return app.NewCertiKApp(log.NewNopLogger(), db, nil, true, map[int64]bool{}, app.DefaultNodeHome, 0, enc, sdksimapp.EmptyAppOptions{}, opts...)
 }
 
 // NewChain builds genesis from cfg, runs InitChain and commits.
